@@ -56,6 +56,50 @@ def run(ctx):
         t = txgen.rand_tx(rng, kind=rng.choice([1, 2]), small=True)
         t.f["accessList"] = [(rbytes(rng, 20), [rbytes(rng, 32) for _ in range(rng.choice([0, 0, 1, 2]))]) for _ in range(n)]
         txs.append(t)
+    # list payloads of exactly 55 / 56 / 57 bytes (short-form / long-form header boundary) and around 2^8 and 2^16, for the
+    # unsigned payload (what is hashed for signing) and for the signed one, for each kind: the data field is sized to hit it
+    def payload_len(t, sig):
+        body = pyref.rlp_encode(t.items(sig))
+        h = body[0]
+        return len(body) - (1 if h < 0xf8 else 1 + h - 0xf7)
+    hit = 0
+    bigtx = []
+    for kind in range(3):
+        for sig in (None, txprobe.SIG_T):
+            for target in (55, 56, 57, 255, 256, 257, 65535, 65536, 65537):
+                for attempt in range(6):
+                    t = txgen.rand_tx(rng, kind=kind, small=True, chain=(rng.choice(["none", 1]) if kind == 0 else 1))
+                    t.f["to"] = None if target < 100 and rng.random() < 0.7 else t.f["to"]
+                    if kind:
+                        t.f["accessList"] = []
+                    for f in ("nonce", "gas", "value", "gasPrice", "maxPriorityFeePerGas", "maxFeePerGas"):
+                        if f in t.f:
+                            t.f[f] = rng.choice([0, 1, 9])
+                    t.f["data"] = b""
+                    base = payload_len(t, sig)
+                    ok = False
+                    for n in range(max(0, target - base - 4), max(0, target - base) + 1):
+                        t.f["data"] = txgen.rand_data(rng, n) if n else b""
+                        if n == 1 and t.f["data"][0] < 0x80:
+                            t.f["data"] = b"\x99"
+                        if payload_len(t, sig) == target:
+                            ok = True
+                            break
+                    if ok:
+                        (txs if target < 1000 else bigtx).append(t)
+                        hit += 1
+                        break
+    ctx.note("transactions whose (unsigned or signed) list payload is exactly 55/56/57, 255/256/257 or 65535/65536/65537 bytes: %d" % hit)
+    # the 2^16 ones are too large to be written as Coq terms: implementation against the independent encoder only
+    bdocs = [txgen.render(rng, t).encode() for t in bigtx]
+    for t, d, e, pz in zip(bigtx, bdocs, ctx.harness([("tx.encode", d) + txprobe.SIG for d in bdocs]), ctx.harness([("tx.parse", d) for d in bdocs])):
+        case = dict(op="Transaction::encode / signing_message (payload around 2^16 bytes)", kind=t.kind, data_bytes=len(t.f["data"]))
+        ctx.count("encode/payload-2^16")
+        ctx.distinct(d)
+        if e.tag != "ok" or pz.tag != "ok":
+            ctx.violation("valid-transaction-refused", case, "accepted", dict(encode=str(e)[:200], parse=str(pz)[:200]))
+        elif e.fields[0] != t.encode(txprobe.SIG_T) or pz.fields[1] != t.signing_hash():
+            ctx.violation("exact-typed-encoding", case, dict(encoded=short(t.encode(txprobe.SIG_T)), hash=t.signing_hash().hex()), dict(encoded=short(e.fields[0]), hash=pz.fields[1].hex()))
     docs = [txgen.render(rng, t) for t in txs]
     # legacy chain ids just above the largest one whose v = 35 + 2c + parity fits 256 bits: refused at parsing, whatever the
     # signature's parity would have been (just below: both parities encode exactly — the loop below checks those)
